@@ -280,8 +280,10 @@ def h_paths(ctx):
     depth = p.get('depth', 3)
     menu = SLICE_MENU[:p.get('menu', len(SLICE_MENU))]
     n_queries = 0
-    with NoTracing():
-        # the structure is concrete on this path and the values are only moved around: the querent runs natively
+    import contextlib
+    # the structure is concrete on this path and the values are only moved around: the querent runs natively - unless the job
+    # asks for a traced run (slower, smaller menu), which also follows code that branches on the VALUES
+    with (contextlib.nullcontext() if p.get('traced') else NoTracing()):
         skeletons = []
         for i in range(n_subsets):
             for sk in enum_paths(nested[i], depth):
@@ -297,7 +299,7 @@ def h_paths(ctx):
             for k in range(len(sk)):
                 for s in menu[1:]:
                     variants.append(tuple((sep, cid, s if j == k else slice(None, None, None)) for j, (sep, cid) in enumerate(sk)))
-            if len(sk) >= 2:
+            if len(sk) >= 2 and not p.get('traced'):
                 pair_menu = [0, slice(-1, None, None), slice(None, None, 2), slice(1, None, None)]
                 for a in pair_menu:
                     for b in pair_menu:
